@@ -94,13 +94,13 @@ Apply(c) ==
 Command(c, accepted) ==
   /\ ev' = [c |-> c, accepted |-> accepted] /\ lh' = lh
   /\ IF accepted THEN Apply(c) ELSE UNCHANGED <<routes, nh, st, cap, faces>>
-  /\ fattr' = [f \in DOMAIN fattr \cap DOMAIN faces' |-> fattr[f]]
-  /\ fprop' = [f \in DOMAIN fprop \cap DOMAIN faces' |->
-                 IF accepted /\ c.mod = "faces" /\ c.verb = "update" /\ f = EffFace(c)
-                 THEN [pers |-> IF c.pers >= 0 THEN c.pers ELSE fprop[f].pers,
-                       lf   |-> IF c.flagsMask = "both" /\ Bit(c.mk, 1) THEN Bit(c.fl, 1) ELSE fprop[f].lf,
-                       cm   |-> IF c.flagsMask = "both" /\ Bit(c.mk, 4) THEN Bit(c.fl, 4) ELSE fprop[f].cm]
-                 ELSE fprop[f]]
+  /\ fattr' = (IF DOMAIN faces' = DOMAIN faces THEN fattr ELSE [f \in DOMAIN fattr \cap DOMAIN faces' |-> fattr[f]])
+  /\ fprop' = (IF accepted /\ c.mod = "faces" /\ c.verb = "update"
+               THEN [fprop EXCEPT ![EffFace(c)] =
+                       [pers |-> IF c.pers >= 0 THEN c.pers ELSE @.pers,
+                        lf   |-> IF c.flagsMask = "both" /\ Bit(c.mk, 1) THEN Bit(c.fl, 1) ELSE @.lf,
+                        cm   |-> IF c.flagsMask = "both" /\ Bit(c.mk, 4) THEN Bit(c.fl, 4) ELSE @.cm]]
+               ELSE IF DOMAIN faces' = DOMAIN faces THEN fprop ELSE [f \in DOMAIN fprop \cap DOMAIN faces' |-> fprop[f]])
 \* ---- C17 rules on the observed response (o.status) ------------------------------------------------
 StatusOK(c, status) ==
   /\ status # "CRASH"
